@@ -133,6 +133,36 @@ def canary_controls(chk: Check) -> None:
         chk.note_inconclusive("the canary detector did not see the payload in a `structure` control")
 
 
+def canary_directed(chk: Check) -> None:
+    """Directed family for (a): plain hostile data named in *every* attribute that takes an expression, the METAL ones
+    included (metal:use-macro of something that is no macro must not pour it into the page)."""
+    vals = {"s1": talref.CANARIES[0], "d1": {"k": talref.CANARIES[1 % len(talref.CANARIES)]}, "seq": list(talref.CANARIES)}
+    shapes = ['<div metal:use-macro="%s">static</div>', '<div metal:use-macro="%s | nothing">static</div>',
+              '<div metal:use-macro="%s"><b metal:fill-slot="x">filled</b></div>',
+              '<p tal:content="%s">x</p>', '<p tal:replace="%s">x</p>', '<p tal:attributes="title %s" title="t">x</p>',
+              '<p tal:define="v %s" tal:content="v">x</p>', '<p tal:define="global gv %s">x</p><i tal:content="gv">g</i>',
+              '<p tal:content="string:a ${%s} b">x</p>', '<p tal:condition="%s">shown</p>', '<p tal:omit-tag="%s">kept</p>',
+              '<p tal:content="nosuch | %s">x</p>', '<p tal:attributes="class string:c-${%s}; id %s">x</p>']
+    for shape in shapes:
+        for expr in ("s1", "d1/k", "seq/0"):
+            tpl = "<html><body>%s</body></html>" % (shape.replace("%s", expr))
+            detail = {"sub": "canary-directed", "case_seed": chk.seed, "page": tpl}
+            try:
+                out = expand(tpl, new_context(vals))
+            except Exception as e:
+                report_exception(chk, e, detail)
+                continue
+            chk.count("canary_directed_cases")
+            bad = injected(talref.events(out))
+            if bad:
+                chk.witness("C18/data-became-markup", dict(detail, injected=bad[:4], output=out[:600]))
+            chk.case(("canary-directed", shape[:24], expr), detail if expr == "s1" and shape.startswith("<div") else None)
+        tpl = '<ul><li tal:repeat="x seq" tal:content="x">i</li><li tal:repeat="y seq" tal:attributes="title y">i</li></ul>'
+    out = expand(tpl, new_context(vals))
+    if injected(talref.events(out)):
+        chk.witness("C18/data-became-markup", {"sub": "canary-directed", "page": tpl, "output": out[:600]})
+
+
 # --------------------------------------------------------------- (b) python: gate ----
 POSITIONS = ("content", "replace", "condition", "define", "repeat", "attributes", "omit-tag",
              "string-sub", "alternation", "not", "structure")
@@ -439,6 +469,8 @@ def main() -> int:
                         chk, scratch, n_py if w["sub"] == "python" else n_handler)
         return chk.finish(RULE, ASSUMPTIONS, min_distinct=0)
     canary_controls(chk)
+    if chk.args.shard in (None, 0):
+        canary_directed(chk)
     for i in range(n_canary):
         canary_case(chk, i)
     with Scratch("c18") as scratch:
